@@ -243,7 +243,10 @@ pub fn graph_snapshot() {}
 
 #[cfg(feature = "f_test_utils")]
 pub fn dl_count_snapshot() {
-    log(EvKind::DlCount { n: rsactor::dead_letter_count() });
+    // relative to the run's first snapshot: the counter is process-wide and runs share a process
+    let c = rsactor::dead_letter_count();
+    let base = world::with(|w| *w.dl_base.get_or_insert(c));
+    log(EvKind::DlCount { n: c.wrapping_sub(base) });
 }
 #[cfg(not(feature = "f_test_utils"))]
 pub fn dl_count_snapshot() {}
@@ -320,9 +323,9 @@ pub fn execute(sc: &Scenario, cfg: &SchedCfg) -> RunResult {
                     world::with(|w| {
                         w.raw_ids.insert(raw, a);
                         if sc.peer_slots {
-                            w.slots.insert(50 + a, (Handle::Strong(r.clone()), a));
+                            w.slots.insert(50 + a, (Arc::new(Handle::Strong(r.clone())), a));
                         }
-                        w.slots.insert(a, (Handle::Strong(r), a));
+                        w.slots.insert(a, (Arc::new(Handle::Strong(r)), a));
                     });
                     log(EvKind::Spawned { a, raw: 0, cap: spec.cap, peer: sc.peer_slots });
                     sim::spawn_named(format!("join:{a}"), async move {
